@@ -167,15 +167,18 @@ impl<T: Serialize> Serialize for Vec<T> {
     fn deserialize(bytes: &[u8]) -> Result<Self, DbError> {
         let len = usize::deserialize(bytes)?;
         let mut begin = len.serialized_size() as usize;
-        let mut vec = Self::with_capacity(len);
+        // `len` is untrusted: never reserve more elements than there are input bytes.
+        let mut vec = Self::with_capacity(len.min(bytes.len()));
+        let error = || {
+            DbError::serialization(
+                DbErrorType::OutOfBounds,
+                format!("Vec<{}> deserialization error", std::any::type_name::<T>()),
+            )
+        };
 
         for _ in 0..len {
-            let value = T::deserialize(&bytes[begin..]).map_err(|_| {
-                DbError::serialization(
-                    DbErrorType::OutOfBounds,
-                    format!("Vec<{}> deserialization error", std::any::type_name::<T>()),
-                )
-            })?;
+            let value =
+                T::deserialize(bytes.get(begin..).ok_or_else(error)?).map_err(|_| error())?;
             begin += value.serialized_size() as usize;
             vec.push(value);
         }
